@@ -39,7 +39,9 @@ def one_session(sid, year, request, cfg0, answers, default, k, kind, work):
     shutil.copy(path, path + ".2") if os.path.exists(path) else open(path + ".2", "w").close()
     r2 = cli_driver.run_solve(year, request, path + ".2", kb2, solution_path=os.path.join(work, "sol2_%d" % sid))
     norm = lambda t: t.strip()
-    return {"sid": sid, "kind": kind or "none", "k": k or 0, "before": before,
+    s1, s2 = os.path.join(work, "sol_%d" % sid), os.path.join(work, "sol2_%d" % sid)
+    same = (cli_driver.file_map(s1) == cli_driver.file_map(s2)) if (os.path.exists(s1) and os.path.exists(s2)) else (os.path.exists(s1) == os.path.exists(s2))
+    return {"sid": sid, "kind": kind or "none", "k": k or 0, "before": before, "same": bool(same), "returned": r1["exc"] == "",
             "answered": [{"i": n, "v": norm(t)} for (n, t) in answered], "parsed": bool(parsed),
             "after": {a: norm(b) for a, b in after.items()}, "rerun_asks": kb2.questions,
             "ended": r1["exc"], "interrupted": kb.interrupted, "nq": len(kb.questions)}
@@ -132,3 +134,66 @@ def c20(tier):
                                "sessions also end in unsupported forms, failing lines and invalid file text; every session record is judged by SessionTrace.tla"})
     return rep, "model_checking", cov, ["keyboard and file system are the real ones of an in-process call of habutax.solve(); pdftk is not involved",
                                         "values compared up to surrounding whitespace (configparser strips it)"]
+
+
+def c13_sessions(tier, rep, cov):
+    """C13 at the command line: solve with prompts and write-back, then the same command again on the file it wrote --
+    the second run asks nothing and writes the identical solution (SessionTrace.tla, Judge13).  The files are chosen so
+    that every section an answer belongs to already exists (and, for others, does not)."""
+    import habutax.forms as F
+    sd = common.seed()
+    rng = random.Random(131 + sd)
+    work = common.mkwork()
+    sessions, meta = [], {}
+    try:
+        sid = 0
+        small = solver_checks.family(tier, sd, "small")
+        for prog in small[:(20 if tier == "quick" else 150)]:
+            x = progs_mod.expand(prog)
+            inputs = sorted(x["all_inputs"])
+            if not inputs:
+                continue
+            F.available_forms[1970] = progs_mod.build_forms(prog)
+            answers = {i: rng.choice(["0", "1"]) for i in inputs}
+            by_sec = {}
+            for i in inputs:
+                by_sec.setdefault(i.split(".")[0], []).append(i)
+            for style in ("every-section", "random"):
+                if style == "every-section":
+                    cfg0 = {v[0]: answers[v[0]] for v in by_sec.values() if len(v) > 1}
+                else:
+                    cfg0 = {i: answers[i] for i in inputs if rng.random() < 0.3}
+                sid += 1
+                sessions.append(one_session(sid, 1970, prog["request"], cfg0 or None, answers, "0", None, None, work))
+                meta[sid] = {"prog": prog["id"], "cfg0": cfg0, "answers": answers, "style": style}
+        F.available_forms.pop(1970, None)
+        for n in range(3 if tier == "quick" else 30):
+            year = scenarios.YEARS[n % 3]
+            r2 = random.Random("c13s-%d-%d" % (sd, n))
+            p = scenarios.Profile(r2, year=year, nc=(n % 4 == 3))
+            request = ["1040"] + (["nc_d-400"] if p.nc else [])
+            tr, res, solver, ans = scenarios.solve_scenario(year, request, p, r2, snap="none")
+            answers = dict(ans.given)
+            first = {}
+            for a in ans.order:
+                first.setdefault(a.split(".")[0], a)
+            part = {a: answers[a] for a in first.values()}                      # one value of every section ...
+            part.update({a: answers[a] for a in ans.order if r2.random() < 0.3})   # ... and some more
+            sid += 1
+            sessions.append(one_session(sid, year, request, part, answers, "", None, None, work))
+            meta[sid] = {"year": year, "request": request, "file": part, "answers": answers}
+        path = os.path.join(work, "sess.json")
+        json.dump({"sessions": [{k: v for k, v in s.items() if k not in ("ended", "interrupted", "nq")} for s in sessions]}, open(path, "w"))
+        cfgp = os.path.join(work, "t.cfg")
+        open(cfgp, "w").write("SPECIFICATION Spec13\nCHECK_DEADLOCK FALSE\n")
+        res_t = common.run_tlc(os.path.join(common.SPEC, "SessionTrace.tla"), cfgp, cwd=work, workers=1, env={"HV_SESS_FILE": path}, timeout=1800)
+    finally:
+        F.available_forms.pop(1970, None)
+        common.rmwork(work)
+    if res_t.rc != 0 or res_t.distinct != len(sessions) + 1:
+        raise common.MachineryError("SessionTrace.tla (Spec13) failed (rc=%s)\n%s" % (res_t.rc, res_t.error_excerpt(40)))
+    for m in re.finditer(r'^"C13\|(\d+)\|(.*)\|"$', res_t.out, re.M):
+        mt = meta[int(m.group(1))]
+        rep.violation("cli-repeat:%s:%s" % (mt.get("prog", mt.get("year")), m.group(2)[:60]), m.group(2), {"kind": "session", "meta": mt})
+    cov["cli_solve_writeback_solve_histories"] = len(sessions)
+    cov["cli_histories_where_the_first_run_returned"] = sum(1 for s in sessions if s["returned"])
